@@ -361,7 +361,7 @@ def model_build():
         bd = os.path.dirname(exe)
         for s in srcs + [srcs[0] + "i"]:
             shutil.copy(s, bd)
-        run(["ocamlfind", "ocamlopt", "-w", "-a", "-O3" if False else "-inline", "100", "model.mli", "model.ml", "driver.ml", "-o", "model"], cwd=bd, check=True)
+        run(["ocamlfind", "ocamlopt", "-package", "unix", "-linkpkg", "-w", "-a", "-inline", "100", "model.mli", "model.ml", "driver.ml", "-o", "model"], cwd=bd, check=True)
         open(stamp, "w").write(h)
         return exe
 
